@@ -106,6 +106,9 @@ func runHarness(ld *Loaded, name string, spec *HarnessSpec, tier string, debug b
 func runHarnessOpt(ld *Loaded, name string, spec *HarnessSpec, tier string, debug bool, seed, concN int) (*sx.Result, error) {
 	fn := ld.Pkg.Func(spec.Func)
 	if fn == nil {
+		for f, e := range ld.Dropped {
+			return nil, fmt.Errorf("harness function %s is unavailable: harness file %s does not compile against the current tree (%s)", spec.Func, f, e)
+		}
 		return nil, fmt.Errorf("harness function %s not found in package", spec.Func)
 	}
 	lim := limitsFor(spec, tier)
@@ -126,6 +129,7 @@ func runHarnessOpt(ld *Loaded, name string, spec *HarnessSpec, tier string, debu
 		ex.Debug = debug
 		ex.Seed = seed
 		ex.ConcN = concN
+		ex.Race = wantRace(spec)
 		if spec.Mode == "conc" {
 			ex.Mode = "conc"
 			ex.Preempt = params["preemptions"]
@@ -154,6 +158,29 @@ func runHarnessOpt(ld *Loaded, name string, spec *HarnessSpec, tier string, debu
 }
 
 var globalTokens = sx.NewTokens(16)
+
+// raceCheckProp: the property being checked ("" for `gosmt run`). Happens-before
+// race detection is an obligation of C15 only; it runs in the harnesses that
+// serve C15 when C15 is the property checked (and in `gosmt run` of such a harness).
+var raceCheckProp = ""
+
+func wantRace(spec *HarnessSpec) bool {
+	if os.Getenv("GOSMT_RACE") != "" {
+		return true
+	}
+	if os.Getenv("GOSMT_NORACE") != "" {
+		return false
+	}
+	if raceCheckProp != "" && raceCheckProp != "C15" {
+		return false
+	}
+	for _, p := range spec.Props {
+		if p == "C15" {
+			return true
+		}
+	}
+	return false
+}
 
 func printResult(res *sx.Result) {
 	fmt.Printf("== %s: paths=%d exhausted=%v steps=%d queries=%d (sat %d, unsat %d, unknown %d, errors %d) solver=%.1fs wall=%.1fs terms=%d\n",
@@ -201,6 +228,7 @@ func cmdRun(args []string) {
 	harness := fs.String("harness", "", "harness name(s), comma separated")
 	tier := fs.String("tier", "quick", "quick|thorough")
 	debug := fs.Bool("debug", false, "debug output")
+	conc := fs.Int("conc", -1, "development: run the harness in conc mode with this delay bound")
 	fs.Parse(args)
 	reg, err := loadRegistry()
 	if err != nil {
@@ -218,6 +246,19 @@ func cmdRun(args []string) {
 		if spec == nil {
 			fmt.Fprintf(os.Stderr, "no harness %s\n", n)
 			os.Exit(2)
+		}
+		if *conc >= 0 {
+			cp := *spec
+			cp.Mode = "conc"
+			cp.Params = map[string]map[string]int{"quick": {}, "thorough": {}}
+			for t, ps := range spec.Params {
+				for k, v := range ps {
+					cp.Params[t][k] = v
+				}
+			}
+			cp.Params["quick"]["preemptions"] = *conc
+			cp.Params["thorough"]["preemptions"] = *conc
+			spec = &cp
 		}
 		res, err := runHarness(ld, n, spec, *tier, *debug, nil)
 		if err != nil {
